@@ -42,7 +42,10 @@ Inductive xop :=
 | XRetry (c1 c2 : N) (same : bool)
 | XSweep (kind tried : N) (bad : list (N * N * N))
 (* streaming importer (class c1) against the in-memory ImportHashSlotSnapshot (class c2) *)
-| XData (c1 c2 : N) (same : bool).
+| XData (c1 c2 : N) (same : bool)
+(* a crafted payload (entry lengths whose sum wraps around in 64 bits) given to the in-memory
+   importer on an empty store: its class, and the keys the store holds afterwards *)
+| XDataReject (cls keys : N).
 
 Inductive c11_case :=
 | CaseMsg (ops : list mop)
@@ -169,12 +172,31 @@ Definition meta_stream_ok (slots : list N) (backup_only : bool) (stream : bytes)
             end
   end.
 
+(* the stream is sealed, framed, addressed to the requested hash slots, every key lies in them,
+   and some user / device row has a value without a length-prefixed token *)
+Definition k4_signature (req : list N) (stream : bytes) : bool :=
+  match verify_meta_checksum crc stream with
+  | Err _ => false
+  | Ok p => match dec_meta_payload p with
+            | Some (s, []) =>
+              list_eqb N.eqb (rm_slots s) (normalize_slots req)
+              && forallb (fun e => in_slots (rm_slots s) (fst e)) (rm_entries s)
+              && existsb (fun e => negb (is_ok (invalidate_token (rm_slots s) (fst e) (snd e)))) (rm_entries s)
+            | _ => false
+            end
+  end.
+
 Definition xstep_monitor (o : xop) : N :=
   match o with
   | XExport _ slots backup_only (Ok stream) => if meta_stream_ok slots backup_only stream then 0 else 1
   | XImport mode before req stream budget r after =>
     match r with
-    | Err e => if negb (e =? EOther) && negb (mdb_eqb after before) then 1 else 0    (* rejected: untouched *)
+    | Err e =>
+      (* rejected: untouched.  Known finding C11-K4 (code 4): with token invalidation the values of
+         user / device rows are decoded only after the delete batch was committed *)
+      if (e =? EOther) || mdb_eqb after before then 0
+      else if (mode =? 3) && (e =? ECorruptValue) && k4_signature req stream then 4
+      else 1
     | Ok _ =>
       match before with
       | [] =>
@@ -202,6 +224,7 @@ Definition xstep_monitor (o : xop) : N :=
   | XRetry c1 c2 same => if (c2 =? 0) && same then 0 else 1
   | XSweep _ _ bad => match bad with [] => 0 | _ => 1 end
   | XData c1 c2 same => if c1 =? 0 then (if (c2 =? 0) && same then 0 else 1) else 0
+  | XDataReject cls keys => if negb (cls =? 0) && (keys =? 0) then 0 else 1
   | _ => 0
   end.
 
